@@ -6,13 +6,16 @@
              "one"   every node has one polynomial (used with free order + re-deliveries: the question there is which
                      messages a node holds when it passes a barrier, not the algebra)
    MaxRedel  bound on the number of re-deliveries (free order only)
+   MaxFault  bound on the number of failing sends (free order only), FaultNodes the nodes they may hit (the nodes are
+             interchangeable up to the polynomial they pick): each is followed by BOTH continuations -- the node
+             gives up (StartAbort / Ret1Abort / Ret2Abort), the node tries again and carries on (Start / Ret1)
    OrderMode "free"  every interleaving of the deliveries and of the nodes' progress
              "canon" one canonical interleaving (the results do not depend on the order: that is what the "free"
                      configurations check; "canon" spends the budget on the polynomials instead): all round-1
                      deliveries, then the nodes pass the barrier in turn, ...
              "eager" another canonical interleaving: a node passes the barrier the moment it may *)
 EXTENDS Frost
-CONSTANTS MCP, MCN, MCTs, MCVs, PolyMode, OrderMode, MaxRedel
+CONSTANTS MCP, MCN, MCTs, MCVs, PolyMode, OrderMode, MaxRedel, MaxFault, FaultNodes
 MCInit == \E t \in MCTs, nv \in MCVs : t <= MCN /\ InitWith(MCN, t, nv, MCP)
 Few(i) == {[v \in Vals |-> [k \in 1..LibThreshold |-> Mod(i + 2 * v + a * k * k + (a - 1) * i * k)]] : a \in {1, 2}}
 One(i) == {[v \in Vals |-> [k \in 1..LibThreshold |-> Mod(i + 2 * v + k * k)]]}
@@ -24,10 +27,16 @@ CanRet1 == {j \in Nodes : phase[j] = "r1" /\ Barrier1(j)}
 MinPair(S) == CHOOSE m \in S : \A o \in S : m[1] * 100 + m[2] <= o[1] * 100 + o[2]
 Min(S) == CHOOSE m \in S : \A o \in S : m <= o
 Idle == {i \in Nodes : phase[i] = "idle"}
+RECURSIVE SumCard(_)
+SumCard(S) == IF S = {} THEN 0 ELSE LET i == CHOOSE x \in S : TRUE IN Cardinality(flt[i]) + SumCard(S \ {i})
+NFault == SumCard(Nodes)
 FreeNext == \/ \E i \in Nodes : \E c \in Polys(i) : Start(i, c)
             \/ \E i, j \in Nodes : Deliver1C(i, j) \/ Deliver1P(i, j) \/ Deliver2(i, j)
             \/ \E j \in Nodes : Ret1(j) \/ Ret2(j)
             \/ (redel < MaxRedel /\ \E i, j \in Nodes : \E k \in Kinds : Redeliver(i, j, k))
+            \/ (NFault < MaxFault /\ \E i \in FaultNodes \cap Nodes : \E r \in {1, 2} : Fault(i, r))
+            \/ \E i \in Nodes : \E c \in Polys(i) : StartAbort(i, c)
+            \/ \E j \in Nodes : Ret1Abort(j) \/ Ret2Abort(j)
 EagerNext == IF Idle # {} THEN \E c \in Polys(Min(Idle)) : Start(Min(Idle), c)
              ELSE IF CanRet1 # {} THEN Ret1(Min(CanRet1))
              ELSE IF Pend1C \cup Pend1P # {}
@@ -42,7 +51,8 @@ CanonNext == IF Idle # {} THEN \E c \in Polys(Min(Idle)) : Start(Min(Idle), c)
              ELSE IF Pend2 # {} THEN Deliver2(MinPair(Pend2)[1], MinPair(Pend2)[2])
              ELSE \E j \in Nodes : Ret2(j)
 \* a completed ceremony stutters, so that TLC's deadlock check reports exactly the runs that get stuck before
-\* every node holds its result (CHECK_DEADLOCK TRUE in the cfgs): every honest run can be completed
-MCNext == (CASE OrderMode = "free" -> FreeNext [] OrderMode = "eager" -> EagerNext [] OTHER -> CanonNext) \/ (AllDone /\ UNCHANGED vars)
+\* every node holds its result (CHECK_DEADLOCK TRUE in the cfgs): every honest run can be completed (once a node has
+\* given up after a failed send the others may wait for ever: that ceremony has aborted)
+MCNext == (CASE OrderMode = "free" -> FreeNext [] OrderMode = "eager" -> EagerNext [] OTHER -> CanonNext) \/ ((AllDone \/ SomeAborted) /\ UNCHANGED vars)
 MCSpec == MCInit /\ [][MCNext]_vars
 ====
